@@ -7,6 +7,9 @@ use crate::report::*;
 use crate::world::*;
 
 pub fn oracle(c: &PuCtx, rec: &mut Rec) {
+    if c.post_malformed() {
+        return; // a pool lost part of its reserve list (C16 reports it); nothing here is defined on such a state
+    }
     let PuOp::Provide { u, pool, funds, lock, lock_id, recv, liq_slip, swap_slip } = c.op else { return };
     if funds.len() != 1 {
         return;
